@@ -12,7 +12,7 @@ Lemma pres_refl p : pres p p. Proof. repeat split; auto. Qed.
 Lemma pres_trans a b c : pres a b -> pres b c -> pres a c.
 Proof. intros (A1 & A2 & A3 & A4) (B1 & B2 & B3 & B4). repeat split; try congruence; auto. Qed.
 
-Definition ds_inv (d : inst_ds) : Prop := (length (ds_path d) <= 128)%nat.
+Definition ds_inv (d : inst_ds) : Prop := (length (ds_path d) <= 128)%nat /\ ds_wfb d = true.
 
 (** the shape of a good result *)
 Definition ds_good (d d' : inst_ds) : Prop := ds_inv d' /\ ds_default d' = ds_default d.
@@ -31,19 +31,34 @@ Proof. intros Hp Hd. exists p, d1, o. split; [reflexivity|]. split; [exact Hp|].
 Lemma port_inv_state p s :
   port_inv p -> pstate_ok s -> (pc_master_only (p_config p) = true -> is_slave s = false) ->
   port_inv (port_with_state p s).
-Proof. intros (A & B & C & D & [E1 E2] & F) Hs Hm. repeat split; try assumption; apply A. Qed.
+Proof. intros (A & B & C & D & [E1 E2] & F & G) Hs Hm. repeat split; try assumption; apply A. Qed.
 
 Lemma port_inv_peer p x : port_inv p -> peer_ok x -> port_inv (port_with_peer p x).
-Proof. intros (A & B & C & D & [E1 E2] & F) Hx. repeat split; try assumption; apply A. Qed.
+Proof. intros (A & B & C & D & [E1 E2] & F & G) Hx. repeat split; try assumption; apply A. Qed.
 
 Lemma port_inv_mean p m : port_inv p -> od_ok m -> port_inv (port_with_mean_delay p m).
-Proof. intros (A & B & C & D & [E1 E2] & F) Hx. repeat split; try assumption; apply A. Qed.
+Proof. intros (A & B & C & D & [E1 E2] & F & G) Hx. repeat split; try assumption; apply A. Qed.
 
 Lemma port_inv_rng p r : port_inv p -> port_inv (port_with_rng p r).
-Proof. intros (A & B & C & D & [E1 E2] & F). repeat split; try assumption; apply A. Qed.
+Proof. intros (A & B & C & D & [E1 E2] & F & G). repeat split; try assumption; apply A. Qed.
 
-Lemma port_inv_seqs p a s d q : port_inv p -> port_inv (port_with_seqs p a s d q).
-Proof. intros (A & B & C & D & [E1 E2] & F). repeat split; try assumption; apply A. Qed.
+Definition seq_next (old new : Z) : Prop := new = old \/ new = gen16 old.
+Lemma seq_next_ok old new : u_ok 16 old = true -> seq_next old new -> u_ok 16 new = true.
+Proof.
+  unfold u_ok, seq_next, gen16. change (2 ^ 16) with 65536. intros H [->| ->]; [exact H|].
+  pose proof (Z.mod_pos_bound (old + 1) 65536 ltac:(lia)). lia.
+Qed.
+Lemma port_inv_seqs p a s d q :
+  port_inv p -> seq_next (p_seq_announce p) a -> seq_next (p_seq_sync p) s ->
+  seq_next (p_seq_delay p) d -> seq_next (p_seq_pdelay p) q -> port_inv (port_with_seqs p a s d q).
+Proof.
+  intros (A & B & C & D & [E1 E2] & F & G) Ha Hs Hd Hq. repeat split; try assumption; try apply A.
+  unfold port_wfb in *. cbn [port_with_seqs p_identity p_seq_announce p_seq_sync p_seq_delay p_seq_pdelay].
+  apply andb_true_iff in G; destruct G as [G G4]. apply andb_true_iff in G; destruct G as [G G3].
+  apply andb_true_iff in G; destruct G as [G G2]. apply andb_true_iff in G; destruct G as [G G1].
+  rewrite G, (seq_next_ok _ _ G1 Ha), (seq_next_ok _ _ G2 Hs), (seq_next_ok _ _ G3 Hd), (seq_next_ok _ _ G4 Hq).
+  reflexivity.
+Qed.
 
 Lemma port_inv_draw p : port_inv p -> port_inv (snd (draw p)).
 Proof. intros H. unfold draw. destruct (p_rng p); cbn [snd]; [exact H|apply port_inv_rng; exact H]. Qed.
@@ -61,7 +76,7 @@ Lemma extract_measurement_ok p :
   exists p' om o, extract_measurement p = Ok (p', om, o) /\ port_inv p' /\ pres p p' /\
     (forall m, om = Some m -> od_ok (filter_mean_delay m)).
 Proof.
-  intros Hinv. pose proof Hinv as (Hcfg & Hst & Hpeer & Hmd & Hfml & Hmo).
+  intros Hinv. pose proof Hinv as (Hcfg & Hst & Hpeer & Hmd & Hfml & Hmo & Hwfb).
   destruct Hcfg as (_ & _ & _ & _ & Hasym & _).
   unfold extract_measurement.
   assert (Hslave : forall X : outcome (port * option measurement * list obs),
@@ -203,7 +218,7 @@ Lemma set_slave_inv p st st' :
   port_inv p -> p_state p = PSlave st -> pstate_ok (PSlave st') -> port_inv (set_slave p st').
 Proof.
   intros Hp Hst Hok. unfold set_slave. apply port_inv_state; [exact Hp|exact Hok|].
-  intros Hm. destruct Hp as (_ & _ & _ & _ & _ & Hmo). specialize (Hmo Hm). rewrite Hst in Hmo. discriminate.
+  intros Hm. destruct Hp as (_ & _ & _ & _ & _ & Hmo & _). specialize (Hmo Hm). rewrite Hst in Hmo. discriminate.
 Qed.
 Lemma set_slave_pres p st st' : p_state p = PSlave st -> pres p (set_slave p st').
 Proof. intros H. unfold set_slave. repeat split; auto. intros Hn. rewrite H in Hn. discriminate. Qed.
@@ -424,7 +439,7 @@ Lemma send_sync_ok p d : port_inv p -> ds_inv d -> good p d (send_sync p d).
 Proof.
   intros Hp Hd. unfold send_sync. destruct (is_master (p_state p)); [|apply good_ret; assumption].
   unfold msg_sync. rewrite small_message_fits by exact I. cbn [obind].
-  eapply good_via; [|apply good_ret; [apply port_inv_seqs; exact Hp|first [exact Hd | apply ds_good_refl; exact Hd]]]. repeat split; auto.
+  eapply good_via; [|apply good_ret; [apply port_inv_seqs; [exact Hp|first [left; reflexivity|right; reflexivity]..]|first [exact Hd | apply ds_good_refl; exact Hd]]]. repeat split; auto.
 Qed.
 
 Lemma handle_sync_timestamp_ok p d id ts :
@@ -470,7 +485,7 @@ Proof.
     unfold msg_delay_req. rewrite small_message_fits by exact I. cbn [obind].
     destruct (slave_parts p st Hp Hst) as (Hsy & Hde & Hla).
     set (p1 := port_with_seqs p (p_seq_announce p) (p_seq_sync p) (gen16 (p_seq_delay p)) (p_seq_pdelay p)).
-    assert (Hp1 : port_inv p1) by (apply port_inv_seqs; exact Hp).
+    assert (Hp1 : port_inv p1) by (apply port_inv_seqs; [exact Hp|first [left; reflexivity|right; reflexivity]..]).
     set (p2 := set_slave p1 (mkSS (ss_remote st) (ss_sync st) (MMeasuring (p_seq_delay p) None None) (ss_last_raw_sync st))).
     assert (Hp2 : port_inv p2).
     { eapply set_slave_inv; [exact Hp1|exact Hst|]. apply slave_ok_intro; auto. apply meas_intro; exact I. }
@@ -482,7 +497,7 @@ Proof.
     eapply pres_trans; [|exact Hpr3]. repeat split; auto. intros Hn. rewrite Hst in Hn. discriminate.
   - unfold msg_pdelay_req. rewrite small_message_fits by exact I. cbn [obind].
     set (p1 := port_with_seqs p (p_seq_announce p) (p_seq_sync p) (p_seq_delay p) (gen16 (p_seq_pdelay p))).
-    assert (Hp1 : port_inv p1) by (apply port_inv_seqs; exact Hp).
+    assert (Hp1 : port_inv p1) by (apply port_inv_seqs; [exact Hp|first [left; reflexivity|right; reflexivity]..]).
     set (p2 := port_with_peer p1 (PDMeasuring (p_seq_pdelay p) None None None None None)).
     assert (Hp2 : port_inv p2) by (apply port_inv_peer; [exact Hp1|apply peer_intro; exact I]).
     pose proof (port_inv_draw p2 Hp2) as Hp3. pose proof (pres_draw p2) as Hpr3.
@@ -502,22 +517,36 @@ Proof.
     destruct (serialize_packet _); cbn [obind] in H; [|discriminate].
     unfold ret in H. injection H as <- <- <-.
     exists (port_with_seqs p (gen16 (p_seq_announce p)) (p_seq_sync p) (p_seq_delay p) (p_seq_pdelay p)), d.
-    eexists. split; [reflexivity|]. split; [apply port_inv_seqs; exact Hp|]. split; [|first [exact Hd | apply ds_good_refl; exact Hd]].
+    eexists. split; [reflexivity|]. split; [apply port_inv_seqs; [exact Hp|first [left; reflexivity|right; reflexivity]..]|]. split; [|first [exact Hd | apply ds_good_refl; exact Hd]].
     repeat split; auto.
   - unfold ret in H. injection H as <- <- <-. apply good_ret; assumption.
 Qed.
 
 (** * Announce reception *)
 Lemma fml_register_inv p l : port_inv p -> fml_ok (p_identity p) l -> port_inv (port_with_fml p l).
-Proof. intros (A & B & C & D & [E1 E2] & F) [Hl1 Hl2]. repeat split; try assumption; apply A. Qed.
+Proof. intros (A & B & C & D & [E1 E2] & F & G) [Hl1 Hl2]. repeat split; try assumption; apply A. Qed.
 
 Lemma port_inv_multiport p m : port_inv p -> port_inv (port_with_multiport p m).
-Proof. intros (A & B & C & D & [E1 E2] & F). repeat split; try assumption; apply A. Qed.
+Proof. intros (A & B & C & D & [E1 E2] & F & G). repeat split; try assumption; apply A. Qed.
+
+Lemma ds_with_inv d steps par path tp :
+  ds_inv d -> u_ok 16 steps = true -> pd_wfb par = true -> (length path <= 128)%nat ->
+  forallb (u_ok 64) path = true -> tp_wfb tp = true -> ds_inv (ds_with d steps par path tp).
+Proof.
+  intros [_ Hw] Hs Hp Hl Hf Ht. split; [exact Hl|].
+  unfold ds_wfb in *. cbn [ds_with ds_default ds_steps_removed ds_parent ds_path ds_tp].
+  apply andb_true_iff in Hw as [Hw _]. apply andb_true_iff in Hw as [Hw _].
+  apply andb_true_iff in Hw as [Hw _]. apply andb_true_iff in Hw as [Hw _].
+  rewrite Hw, Hs, Hp, Hf, Ht. reflexivity.
+Qed.
 
 Lemma handle_announce_ok p d ti m a :
-  port_inv p -> ds_inv d -> 0 <= an_steps_removed a -> good p d (handle_announce p d ti m a).
+  port_inv p -> ds_inv d -> wf_header (m_header m) -> wf_ann a -> bok (m_suffix m) ->
+  good p d (handle_announce p d ti m a).
 Proof.
-  intros Hp Hd Hsteps. unfold handle_announce.
+  intros Hp Hd Hwh Hwa Hsuf.
+  assert (Hsteps : 0 <= an_steps_removed a) by apply Hwa.
+  unfold handle_announce.
   (* the data set update *)
   cbv zeta.
   match goal with |- good p d (obind ?X _) =>
@@ -529,13 +558,21 @@ Proof.
     apply andb_true_iff in Es as [_ Hlt].
     unfold chk_u. assert (in_u 16 (an_steps_removed a + 1) = true) as -> by (unfold in_u; change (2 ^ 16) with 65536; lia).
     cbn [obind].
-    destruct (if ds_path_enable d then find_tlv 8 (tlvs_of (m_suffix m)) else None) as [t|].
+    assert (Hst : u_ok 16 (an_steps_removed a + 1) = true) by (apply u_ok_iff; change (2 ^ 16) with 65536; lia).
+    pose proof (ann_pd_wfb _ _ Hwh Hwa) as Hpd. pose proof (ann_tp_wfb (m_header m) a Hwa) as Htp.
+    destruct (if ds_path_enable d then find_tlv 8 (tlvs_of (m_suffix m)) else None) as [t|] eqn:Et.
     - destruct (PATH_CAPACITY <? length (path_of_value (tlv_value t)))%nat eqn:Ec;
         [eexists; eexists; eexists; split; [reflexivity|first [exact Hd | apply ds_good_refl; exact Hd]]|].
       destruct (existsb _ _); eexists; eexists; eexists; (split; [reflexivity|]); [apply ds_good_refl; exact Hd|].
       split; [|reflexivity].
-      unfold ds_inv, ds_with. cbn [ds_path]. apply Nat.ltb_ge in Ec. unfold PATH_CAPACITY in Ec. exact Ec.
-    - eexists; eexists; eexists; split; [reflexivity|]. split; [|reflexivity]. unfold ds_inv, ds_with. cbn. lia. }
+      apply ds_with_inv; try assumption.
+      + apply Nat.ltb_ge in Ec. unfold PATH_CAPACITY in Ec. exact Ec.
+      + unfold path_of_value. apply chunks8_wfb.
+        destruct (ds_path_enable d); [|discriminate]. apply find_tlv_in in Et.
+        pose proof (tlvset_iter_bok (length (m_suffix m)) (m_suffix m) Hsuf) as Hall.
+        rewrite Forall_forall in Hall. apply (Hall t). exact Et.
+    - eexists; eexists; eexists; split; [reflexivity|]. split; [|reflexivity].
+      apply ds_with_inv; try assumption; [cbn; lia|reflexivity]. }
   destruct Hr as (d1 & lp & locks & -> & Hd1). cbn [obind].
   destruct lp; [apply good_ret2; assumption|].
   unfold bmca_register.
@@ -544,7 +581,7 @@ Proof.
   set (fml := fml_register (p_identity p) ti (p_fml p) (m_header m) a 0).
   assert (Hp1 : port_inv (port_with_fml p fml)).
   { apply fml_register_inv; [exact Hp|]. destruct Hp as (_ & _ & _ & _ & [Hw Hn] & _).
-    split; [apply fml_register_wf; exact Hw|apply fml_register_nn; [exact Hn|exact Hsteps]]. }
+    split; [apply fml_register_wf; exact Hw|apply fml_register_nn; [exact Hn|split; assumption]]. }
   match goal with |- context [if ?c then set_forced ?x ?y else ?z] => destruct c end.
   - set (p2 := fst (set_forced (port_with_multiport (port_with_fml p fml) (Some 0)) PPassive)).
     assert (Hp2 : port_inv p2).
@@ -616,19 +653,19 @@ Proof.
 Qed.
 
 Lemma decoded_wf frame m : bok frame -> decode frame = ROk m ->
-  wf_header (m_header m) /\ wf_body (m_body m).
-Proof. intros Hb Hd. destruct (decode_wf frame m Hb Hd) as [(A & B & _) _]. split; assumption. Qed.
+  wf_header (m_header m) /\ wf_body (m_body m) /\ bok (m_suffix m).
+Proof. intros Hb Hd. destruct (decode_wf frame m Hb Hd) as [(A & B & [C _] & _) _]. split; [exact A|split; [exact B|exact C]]. Qed.
 
 Lemma handle_general_internal_ok p d ti m :
-  port_inv p -> ds_inv d -> wf_header (m_header m) -> wf_body (m_body m) ->
+  port_inv p -> ds_inv d -> wf_header (m_header m) -> wf_body (m_body m) -> bok (m_suffix m) ->
   good p d (handle_general_internal p d ti m).
 Proof.
-  intros Hp Hd Hh Hb. unfold handle_general_internal.
+  intros Hp Hd Hh Hb Hsuf. unfold handle_general_internal.
   destruct (m_body m) eqn:Eb; cbn in Hb; try (apply good_ret; assumption).
   - apply handle_follow_up_ok; assumption.
   - destruct Hb. apply handle_delay_resp_ok; assumption.
   - destruct Hb. apply handle_peer_delay_follow_up_ok; assumption.
-  - apply handle_announce_ok; try assumption. apply Hb.
+  - apply handle_announce_ok; assumption.
 Qed.
 
 Lemma handle_event_receive_ok p d ti frame ts :
@@ -638,7 +675,7 @@ Proof.
   intros Hp Hd Hf Hts. unfold handle_event_receive, parse_and_filter.
   destruct (negb (is_compatible frame)); [apply good_ret; assumption|].
   destruct (decode frame) as [m|e] eqn:Ed; [|apply good_ret; assumption].
-  destruct (decoded_wf frame m Hf Ed) as [Hh Hb].
+  destruct (decoded_wf frame m Hf Ed) as (Hh & Hb & Hsuf).
   destruct ((h_sdo_id (m_header m) =? dd_sdo_id (ds_default d)) && (h_domain (m_header m) =? dd_domain (ds_default d)));
     [|apply good_ret; assumption].
   apply prepend_good.
@@ -661,7 +698,7 @@ Proof.
   intros Hp Hd Hf. unfold handle_general_receive, parse_and_filter.
   destruct (negb (is_compatible frame)); [apply good_ret; assumption|].
   destruct (decode frame) as [m|e] eqn:Ed; [|apply good_ret; assumption].
-  destruct (decoded_wf frame m Hf Ed) as [Hh Hb].
+  destruct (decoded_wf frame m Hf Ed) as (Hh & Hb & Hsuf).
   destruct ((h_sdo_id (m_header m) =? dd_sdo_id (ds_default d)) && (h_domain (m_header m) =? dd_domain (ds_default d)));
     [|apply good_ret; assumption].
   apply prepend_good. apply handle_general_internal_ok; assumption.
